@@ -30,7 +30,8 @@ func c16Rules(tier string) []Rule {
 		heal  = "(*controllers/node/health.Controller).Reconcile"
 		healD = "(*controllers/node/health.Controller).deleteNodeClaim"
 	)
-	expTime := `\(time\.Time\)\.Before\(iface:\(k8s\.io/utils/clock\.PassiveClock\)\.Now\(\$0\.clock\), \(time\.Time\)\.Add\(\$2\.ObjectMeta\.CreationTimestamp\.Time, \$2\.Spec\.ExpireAfter\.Duration\)\)$`
+	// (a.Before(b) is rendered as b.After(a))
+	expTime := `\(time\.Time\)\.After\(\(time\.Time\)\.Add\(\$2\.ObjectMeta\.CreationTimestamp\.Time, \$2\.Spec\.ExpireAfter\.Duration\), iface:\(k8s\.io/utils/clock\.PassiveClock\)\.Now\(\$0\.clock\)\)$`
 	return []Rule{
 		WMC{ID: "C16.WMC1", Sink: ncDelete,
 			Allowed: []string{
@@ -106,7 +107,7 @@ func c16Rules(tier string) []Rule {
 		// ---- node repair
 		DOM{ID: "C16.DOM4", Fn: heal, Sink: `^call \(\*controllers/node/health\.Controller\)\.deleteNodeClaim\(`, Gates: gates(
 			G(`-^\(\*controllers/node/health\.Controller\)\.findUnhealthyConditions\(\$0, \$2\)#0 == nil$`),
-			G(`-^\(time\.Time\)\.Before\(iface:\(k8s\.io/utils/clock\.PassiveClock\)\.Now\(\$0\.clock\), \(time\.Time\)\.Add\(\(\*controllers/node/health\.Controller\)\.findUnhealthyConditions\(\$0, \$2\)#0\.LastTransitionTime\.Time, \(\*controllers/node/health\.Controller\)\.findUnhealthyConditions\(\$0, \$2\)#1\)\)$`),
+			G(`-^\(time\.Time\)\.After\(\(time\.Time\)\.Add\(\(\*controllers/node/health\.Controller\)\.findUnhealthyConditions\(\$0, \$2\)#0\.LastTransitionTime\.Time, \(\*controllers/node/health\.Controller\)\.findUnhealthyConditions\(\$0, \$2\)#1\), iface:\(k8s\.io/utils/clock\.PassiveClock\)\.Now\(\$0\.clock\)\)$`),
 			G(`+^\(\*controllers/node/health\.Controller\)\.isNodePoolHealthy\(\$0, .*\)#0$`, `+^\(\*controllers/node/health\.Controller\)\.isClusterHealthy\(\$0\)#0$`),
 			G(`+^\(\*controllers/node/health\.Controller\)\.isNodePoolHealthy\(\$0, .*\)#1 == nil$`, `+^\(\*controllers/node/health\.Controller\)\.isClusterHealthy\(\$0\)#1 == nil$`),
 			G(`+^utils/node\.NodeClaimForNode\(\$0\.kubeClient, \$2\)#1 == nil$`),
